@@ -101,9 +101,11 @@ func c07Durations(c *core.Ctx) {
 	}
 }
 
-func c07PingBody(c *core.Ctx) {
-	const R = "C07.2"
-	c.Rule(R, "ping body: the schedulePing callback does sendPacket(PING) ≺ resetPingTimeout(); the resetPingTimeout callback reaches OnClose(\"ping timeout\") on the not-closed edge and has no other effect")
+func c07PingBody(c *core.Ctx) { pingBody(c, "C07.2") }
+
+// pingBody (C07.2 = C03.16 = C12.10): the heartbeat keeps running, deadline included, until the session is closed.
+func pingBody(c *core.Ctx, R string) {
+	c.Rule(R, "ping body: the schedulePing callback does sendPacket(PING) ≺ resetPingTimeout(), the latter on every path and under no condition; the resetPingTimeout callback reaches OnClose(\"ping timeout\") on the not-closed edge and has no other effect")
 	if sp := c.Fn(R, "engine.(*socket).schedulePing"); sp != nil {
 		var cb *core.Unit
 		for _, cl := range sp.CallsTo(setTimeoutKey) {
@@ -123,6 +125,21 @@ func c07PingBody(c *core.Ctx) {
 				}
 			}
 			ok = ping != nil && reset != nil && g.Dominates(ping.Loc, reset.Loc)
+			// … unconditionally: the deadline is armed on every path through the callback, whatever sendPacket did with the
+			// ping (a closing session drops it, yet the deadline is what ends a closing session whose peer is gone)
+			if ok {
+				every := true
+				for _, r := range returnsIn(cb) {
+					every = every && g.Dominates(reset.Loc, r.Loc)
+				}
+				dep := ""
+				for _, f := range g.Facts() {
+					if g.EdgeDominates(f.Br.B, f.Edge, reset.Loc) {
+						dep = core.ExprString(f.Br.Cond)
+					}
+				}
+				c.Check(R, "engine.(*socket).schedulePing$callback/resetPingTimeout-unconditional", reset.Pos(), every && dep == "", keyf("armed on every path: %v; depends on: %q", every, dep))
+			}
 		}
 		c.Check(R, "engine.(*socket).schedulePing$callback/PING≺resetPingTimeout", sp.Pos(), ok, "each ping starts its deadline")
 	}
